@@ -100,6 +100,13 @@ def c13(ctx):
              "consumed the loop can neither be left normally nor go round again without having called the element parser, whose error is "
              "propagated -- `Foo taking 1, and` is not a complete call")
     operand_after_separator(ctx, "C13.R8")
+    rep.rule("C13.R9", "look before you take: every place where the parser advances its own token stream directly (Iterator::next on "
+             "Parser.lexer, not on a clone) either sits on the accepting side of a test of the token it takes (a closure mapped over a "
+             "filtered / matched view of current() or of a peek on a clone; the true edge of such a test), or is the reviewed primitive "
+             "`consume`, or is followed by no error located at the then-current token (new_parse_error) other than the one for the end "
+             "of input -- a token is never taken first and rejected afterwards, which would move the reported position past the "
+             "offending token")
+    look_before_take(ctx, "C13.R9")
     # ---- R1
     for name, exits_allowed in (("parse_block", False), ("parse_function_block", True)):
         fn = F.fn(PARSER + name)
@@ -309,6 +316,114 @@ def line_attribution(ctx):
 SEPARATOR_LOOP_EXCEPTIONS = {
     PARSER + "match_and_consume_while": "the callback processes the token just consumed; this loop has no operand to require",
 }
+
+
+def look_before_take(ctx, rule):
+    F, rep = ctx.F, ctx.rep
+    from ..guards import _closure_use, _bool_edges, _dominated_by_edge
+    NPE = PARSER + "new_parse_error"
+    PEEK = (PARSER + "current", PARSER + "current_or_error")
+
+    def own_lexer(b, a0):
+        """the receiver is the parser's lexer field itself (through self or a captured self), not a clone"""
+        for d, p in origins(b, a0):
+            if d[0] == "param" and ("lexer" in p or (b.kind == "closure" and d[1] == 1 and p)):
+                # a captured `&mut self.lexer` / `self`: resolve the capture
+                if "lexer" in p:
+                    return True
+                bb_, oo_ = common.upvar_resolve(F, b, a0)
+                if bb_ is not b:
+                    return own_lexer(bb_, oo_)
+                return True
+        return False
+
+    def derives_from_peek(b, o):
+        for d, p in kind_deep(b, o):
+            if d[0] == "call":
+                t = b.term(d[1])
+                if callee_def(t) in PEEK:
+                    return True
+                if t["callee"].get("name") == "clone" and "Lexer" in (t["callee"].get("inst") or "") + b.local_ty(t["dest"]["l"]).s:
+                    return True
+        return False
+
+    def guarded(b, bi, depth=0):
+        # G2: the true edge / Some arm of a test of a peeked value dominates the site
+        for b2, t2 in b.calls():
+            if t2["callee"].get("name") == "is_some" and derives_from_peek(b, t2["args"][0]):
+                e = _bool_edges(b, b2)
+                if e and (e[2] == bi or _dominated_by_edge(b, bi, e[0], e[2])):
+                    return True
+        for sb in range(len(b.blocks)):
+            sw = tables.arms_complete(b, sb)
+            if sw and "Some" in sw[2] and derives_from_peek(b, {"copy": {"l": sw[0]["l"], "p": []}}):
+                direct = [d for d, p in origins(b, {"copy": {"l": sw[0]["l"], "p": []}}) if d[0] == "call" and callee_def(b.term(d[1])) in PEEK]
+                if not direct and (sw[2]["Some"] == bi or _dominated_by_edge(b, bi, sb, sw[2]["Some"])):
+                    return True
+        # G1: a closure mapped over a filtered / matched view of the current token
+        if b.kind == "closure" and depth < 3:
+            use = _closure_use(F, b)
+            if use and use[2]["callee"].get("name") in ("map", "and_then", "inspect", "map_or", "map_or_else", "is_some_and", "filter") and use[2]["args"]:
+                parent, cb, ct = use
+                v = ct["args"][0]
+                direct = [d for d, p in origins(parent, v) if d[0] == "call" and callee_def(parent.term(d[1])) in PEEK]
+                if not direct:
+                    if derives_from_peek(parent, v):
+                        return True
+                    # built by this function's own match on the current token (Some in the accepting arms), inside a closure that
+                    # itself runs on current()
+                    if parent.kind == "closure":
+                        u2 = _closure_use(F, parent)
+                        if u2 and u2[2]["args"] and derives_from_peek(u2[0], u2[2]["args"][0]):
+                            return True
+                if guarded(parent, cb, depth + 1) and not direct:
+                    return True
+        return False
+    n = 0
+    for fn in F.all_bodies(tests=False):
+        if not fn.file.endswith("frontend/parser.rs"):
+            continue
+        for bi, t in fn.calls():
+            if callee_def(t) != "std::iter::Iterator::next" or "CommentSkippingLexer" not in (t["callee"].get("inst") or ""):
+                continue
+            if not own_lexer(fn, t["args"][0]):
+                continue
+            n += 1
+            top = common.top_fn(F, fn)
+            rep.analysed(top)
+            key = "advance::%s" % top.path.rsplit("::", 1)[-1]
+            if top.path == PARSER + "consume":
+                rep.ob(rule, key, True, "", fn.loc(t["line"]), how="the reviewed primitive: its callers have matched the token (census guard consume-callers)")
+                continue
+            if guarded(fn, bi):
+                rep.ob(rule, key, True, "", fn.loc(t["line"]), how="on the accepting side of a test of the token taken")
+                continue
+            # not guarded: no error located at the then-current token may follow, except `None => end of input` on the advance's own result
+            # (looked for in the continuation of the advance: the body it sits in and the closures that body hands out)
+            late = None
+            for b2 in F.with_closures(fn):
+                for nb, nt in b2.calls():
+                    if callee_def(nt) != NPE:
+                        continue
+                    if b2 is fn:
+                        follows = nb in fn.reachable_from_succs(bi)
+                    else:
+                        n_anchor = common.site_anchors(F, fn, b2, nb)
+                        follows = any(x == bi or x in fn.reachable_from_succs(bi) for x in n_anchor) if n_anchor else True
+                    if not follows:
+                        continue
+                    if b2.kind == "closure":
+                        u = _closure_use(F, b2)
+                        if u and u[0] is fn and u[2]["callee"].get("name") in ("ok_or_else", "ok_or") and \
+                                {d for d, p in origins(fn, u[2]["args"][0])} == {("call", bi)}:
+                            continue    # None from the stream itself: the end of input, nothing was taken
+                    late = (b2, nt)
+            ok = late is None
+            rep.ob(rule, key, ok,
+                   "" if ok else "%s takes a token from the stream before anything has accepted it, and an error located at the *then* current token can follow (line %s): when the token taken is the offending one, the reported position is that of the token after it" % (
+                       top.path.rsplit("::", 1)[-1], late[1]["line"]),
+                   fn.loc(t["line"]), how="no new_parse_error after the advance")
+    rep.floor(rule, n, 4, "direct advances of the parser's token stream")
 
 
 def operand_after_separator(ctx, rule):
